@@ -45,6 +45,8 @@ def make_files(h, wd, rng):
     pre = h.HvsrPreProcessingSettings(window_length_in_seconds=120.0, filter_corner_frequencies_in_hz=[None, None], detrend="linear")
     pro = h.HvsrTraditionalProcessingSettings(smoothing=dict(operator="konno_and_ohmachi", bandwidth=40, center_frequencies_in_hz=np.geomspace(0.5, 20, 16)))
     pre.save(os.path.join(wd, "pre.json"))
+    pre2 = h.HvsrPreProcessingSettings(window_length_in_seconds=120.0, filter_corner_frequencies_in_hz=[0.5, 20.0], detrend="linear")
+    pre2.save(os.path.join(wd, "pre2.json"))
     pro.save(os.path.join(wd, "pro.json"))
     # second settings variant: the settings FILE carries an explicit fft_settings dictionary (a nested mutable value)
     pro2 = h.HvsrTraditionalSingleAzimuthProcessingSettings(azimuth_in_degrees=30.0, fft_settings={"n": 32768},
@@ -53,19 +55,19 @@ def make_files(h, wd, rng):
     return names
 
 
-def reference(h, wd, fname, pro_file="pro.json"):
+def reference(h, wd, fname, pro_file="pro.json", pre_file="pre.json"):
     """what read -> preprocess -> process -> write produce for this file alone with freshly loaded settings"""
     cwd = os.getcwd()
     os.chdir(wd)
     try:
         with warnings.catch_warnings():
             warnings.simplefilter("ignore")
-            pre = h.read_settings_object_from_file("pre.json")
+            pre = h.read_settings_object_from_file(pre_file)
             pro = h.read_settings_object_from_file(pro_file)
             rec = h.read([[fname]])
             win = h.preprocess(rec, pre)
             res = h.process(win, pro)
-            out = f"ref_{pro_file}_{fname}.csv"
+            out = f"ref_{pre_file}_{pro_file}_{fname}.csv"
             h.write_hvsr_object_to_file(res, out, distribution_mc="lognormal", distribution_fn="lognormal")
             n = pro.fft_settings["n"]
         return open(out, "rb").read(), n
@@ -96,7 +98,7 @@ def main():
     # ---- real CLI --------------------------------------------------------------------------------
     names = make_files(h, wd, rng)
     refs = {stem: reference(h, wd, fn) for stem, fn in names.items() if stem in ("big1", "small1", "small2")}
-    refs2 = {stem: reference(h, wd, fn, "pro2.json") for stem, fn in names.items() if stem in ("big1", "small1", "small2")}
+    refs2 = {stem: reference(h, wd, fn, "pro2.json", "pre2.json") for stem, fn in names.items() if stem in ("big1", "small1", "small2")}
     for stem, (_, n) in list(refs.items()) + list(refs2.items()):
         want = 65536 if stem.startswith("big") else 32768
         if n != want:
@@ -131,7 +133,8 @@ def main():
         pro_file = "pro.json" if ci % 2 == 0 else "pro2.json"
         cur_refs = refs if pro_file == "pro.json" else refs2
         cmd = [sys.executable, "-c", "from hvsrpy.cli import cli; cli()", "--no_figure", "--nproc", str(nproc),
-               "--preprocessing_settings_file", "pre.json", "--processing_settings_file", pro_file] + [names[f] for f in files]
+               "--preprocessing_settings_file", "pre.json" if pro_file == "pro.json" else "pre2.json",
+               "--processing_settings_file", pro_file] + [names[f] for f in files]
         p = subprocess.run(cmd, cwd=wd, env=env, stdout=subprocess.PIPE, stderr=subprocess.STDOUT, text=True, timeout=600)
         if p.returncode != 0:
             run.violation("cli:failed", f"hvsrpy CLI exited with {p.returncode} for files={files} nproc={nproc}: {p.stdout[-400:]}",
